@@ -48,6 +48,24 @@ def same_base_or_log(c, a, sign):
     return b1, e1, b2, e2
 
 
+def pfx_binop_post(c, o, r, p, q, s):
+    """r (in state c) is the prefix p*q (s=1) or p/q (s=-1) of prefixes read in state o"""
+    b1, e1, b2, e2 = pbase(o, p), pexp(o, p), pbase(o, q), pexp(o, q)
+    yield "other-identity", z3.Implies(b2 == 0, r.ref == p.ref)
+    if s == 1:
+        yield "self-identity", z3.Implies(z3.And(b2 != 0, b1 == 0), r.ref == q.ref)
+    else:
+        yield "self-identity", z3.Implies(z3.And(b2 != 0, b1 == 0), is_canon(c, r, b2, -e2))
+    yield "same-base", z3.Implies(z3.And(b1 != 0, b2 == b1), is_canon(c, r, b1, e1 + s * e2))
+    yield "mixed-base", z3.Implies(z3.And(b1 != 0, b2 != 0, b2 != b1),
+                                   is_canon(c, r, b1, e1 + s * (e2 * (rlog(z3.ToReal(b2)) / rlog(z3.ToReal(b1))))))
+    yield "is-prefix", z3.And(c.alive(r), init(c, r))
+
+
+def bases_ok(c, p):
+    return z3.Or(pbase(c, p) == 0, pbase(c, p) >= 2)
+
+
 class _PfxBin(Contract):
     props = ("C02", "C11")
     inv = ("I_P",)
@@ -63,17 +81,7 @@ class _PfxBin(Contract):
         yield "bases", z3.And(z3.Or(pbase(c, a.self) == 0, pbase(c, a.self) >= 2), z3.Or(pbase(c, a.other) == 0, pbase(c, a.other) >= 2))
 
     def ensures(self, c, a, r):
-        o = c.old
-        b1, e1, b2, e2 = pbase(o, a.self), pexp(o, a.self), pbase(o, a.other), pexp(o, a.other)
-        s = self.sign
-        yield "other-identity", z3.Implies(b2 == 0, r.ref == a.self.ref)
-        if s == 1:
-            yield "self-identity", z3.Implies(z3.And(b2 != 0, b1 == 0), r.ref == a.other.ref)
-        else:
-            yield "self-identity", z3.Implies(z3.And(b2 != 0, b1 == 0), is_canon(c, r, b2, -e2))
-        yield "same-base", z3.Implies(z3.And(b1 != 0, b2 == b1), is_canon(c, r, b1, e1 + s * e2))
-        yield "mixed-base", z3.Implies(z3.And(b1 != 0, b2 != 0, b2 != b1),
-                                       is_canon(c, r, b1, e1 + s * (e2 * (rlog(z3.ToReal(b2)) / rlog(z3.ToReal(b1))))))
+        yield from pfx_binop_post(c, c.old, r, a.self, a.other, self.sign)
         yield "table-grows", same_table_grows(c, "Prefix._known")
 
 
@@ -145,3 +153,59 @@ class PfxRoot(Contract):
                                                 z3.Implies(pexp(o, a.self) != 0, pbase(c, r) == pbase(o, a.self)),
                                                 z3.Implies(z3.And(pexp(o, a.self) == 0, pbase(o, a.self) != 0), r.ref == IdentityPrefix.ref)))
         yield "table-grows", same_table_grows(c, "Prefix._known")
+
+
+@contract
+class PfxMul(Contract):
+    """Prefix.__mul__ / __rmul__: prefix*prefix, prefix*unit, prefix*number."""
+    qual = "measured.Prefix.__mul__"
+    props = ("C02", "C11")
+    inv = ("I_D", "I_P", "I_U")
+    modifies = ("new:Prefix", "Prefix._known", "new:Unit", "Unit._known")
+    types = {"other": [T_PFX, T_UNIT, ("other",)]}
+
+    def ret(self, a):
+        if isinstance(a.other, VObj):
+            return ("obj", a.other.cls)
+        return ("notimpl",)
+
+    def requires(self, c, a):
+        yield "wf-self", wf_pfx(c, a.self)
+        yield "base-self", bases_ok(c, a.self)
+        if isinstance(a.other, VObj) and a.other.cls == "Prefix":
+            yield "wf-other", wf_pfx(c, a.other)
+            yield "base-other", bases_ok(c, a.other)
+        elif isinstance(a.other, VObj) and a.other.cls == "Unit":
+            from .c_unit import wf_unit
+            yield "wf-other", wf_unit(c, a.other)
+
+    def ensures(self, c, a, r):
+        o = c.old
+        if isinstance(a.other, VObj) and a.other.cls == "Prefix":
+            if not (isinstance(r, VObj) and r.cls == "Prefix"):
+                yield "returns-prefix", z3.BoolVal(False)
+                return
+            yield from pfx_binop_post(c, o, r, a.self, a.other, 1)
+            yield "unit-table-unchanged", table_unchanged(c, "Unit._known")
+        elif isinstance(a.other, VObj) and a.other.cls == "Unit":
+            if not (isinstance(r, VObj) and r.cls == "Unit"):
+                yield "returns-unit", z3.BoolVal(False)
+                return
+            from .c_unit import live
+            yield "is-unit", live(c, r)
+            # the unit's prefix is (unit.prefix * self); factors and dimension are kept
+            for nm, f in pfx_binop_post(c, o, VObj("Prefix", c.f(r, "prefix")), VObj("Prefix", o.f(a.other, "prefix")), a.self, 1):
+                yield "unit-prefix-" + nm, f
+            yield "unit-factors", c.f(r, "factors") == o.f(a.other, "factors")
+            yield "unit-dimension", pointwise_d(c, o, c.f(r, "dimension"), o.f(a.other, "dimension"))
+            yield "table-grows-Unit._known", same_table_grows(c, "Unit._known")
+        else:
+            yield "not-implemented", z3.BoolVal(isinstance(r, VNotImpl))
+        yield "table-grows", same_table_grows(c, "Prefix._known")
+
+
+def pointwise_d(c, o, d_new, d_old):
+    i = z3.Int("i!pd")
+    return z3.ForAll([i], z3.Implies(z3.And(i >= 0, i < NDIM),
+                                     z3.Select(ITup.iarr(c.fz("Dimension", d_new, "exponents")), i)
+                                     == z3.Select(ITup.iarr(o.fz("Dimension", d_old, "exponents")), i)))
